@@ -21,10 +21,11 @@ def run(ctx):
         for op in s["ops"]:
             if op.get("bad"):
                 ctx.count("bad_" + op["bad"])
-    # model vs implementation on the malformed stream
+    # model vs implementation on the malformed stream (one worker: the recorded draws must arrive in program order)
+    corr = [dict(s, cfg=dict(s["cfg"], n_jobs=1, backend=None)) if s["cfg"].get("np") else s for s in scns]
     found = 0
-    for i in range(0, len(scns), 400):
-        for scn, f in ctx.correspond(scns[i:i + 400]):
+    for i in range(0, len(corr), 400):
+        for scn, f in ctx.correspond(corr[i:i + 400]):
             found += 1
             if found <= 2:
                 from .. import core as C
